@@ -125,6 +125,14 @@ pub fn c04_c05(prop: &str, seed: u64, budget: usize) -> Report {
                 _ => { let c = if prop == "C04" { vec![0.0f32, 1.0, 4.0, 0.5, -1.0, -0.5, -0.01, -0.1] } else { vec![0.0f32, 1.0, 0.5] }; [*r.pick(&c), *r.pick(&c), *r.pick(&c)] }
             });
         }
+        // self-feeding pairs: a pixel followed by a pixel that EQUALS the first one's converted value (a conversion that keeps
+        // state between pixels - a cache keyed on the wrong value, a run shortcut - is visible only on such sequences)
+        for j in 0..96usize {
+            let v = r.unit(); let w = r.unit();
+            let base = match j % 4 { 0 => [v, v, v], 1 => [v, v, w], 2 => [*r.pick(&[0.0f32, 1.0, 0.5]), *r.pick(&[0.0f32, 1.0, 0.5]), *r.pick(&[0.0f32, 1.0, 0.5])], _ => [v, w, r.unit()] };
+            let o = Xyb::from(LinearRgb::new(vec![base], 1, 1).unwrap()).data()[0];
+            if o.iter().all(|c| *c >= 0.0 && *c <= 1.0) { px.push(base); px.push(o); px.push(base); }
+        }
         let xyb = Xyb::from(LinearRgb::new(px.clone(), px.len(), 1).unwrap());
         if xyb.width() != px.len() || xyb.height() != 1 { rep.fail("dimensions not preserved", "xyb".into(), "".into(), "".into()); }
         rep.evaluated += px.len() as u64;
@@ -242,6 +250,13 @@ pub fn c17(seed: u64, budget: usize) -> Report {
                 3 => { for c in &mut p { *c *= 1e-3; } } 4 => { for c in &mut p { *c = 1.0 - *c * 1e-3; } } 5 => p[1] = 0.0, 6 => { p[0] = 1.0; p[1] = p[2] * (1.0 - 1e-6); } _ => {} }
             for c in &mut p { *c = c.clamp(0.0, 1.0); }
             px.push(p);
+        }
+        // self-feeding pairs (see c04_c05): a pixel followed by one that equals its HSL triple, and the reverse for the inverse
+        for j in 0..96usize {
+            let v = r.unit();
+            let base = match j % 4 { 0 => [v, v, v], 1 => [1.0, 0.0, 0.0], 2 => [*r.pick(&[0.0f32, 1.0, 0.5]), *r.pick(&[0.0f32, 1.0, 0.5]), *r.pick(&[0.0f32, 1.0, 0.5])], _ => [v, v, r.unit()] };
+            let o = Hsl::from(LinearRgb::new(vec![base], 1, 1).unwrap()).data()[0];
+            if o.iter().all(|c| *c >= 0.0 && *c <= 1.0) { px.push(base); px.push(o); px.push(base); }
         }
         let h = Hsl::from(LinearRgb::new(px.clone(), px.len(), 1).unwrap());
         let back = LinearRgb::from(Hsl::new(h.data().to_vec(), px.len(), 1).unwrap());
